@@ -120,19 +120,23 @@ def RVal.hasReaction (a : RVal α) : Bool := decide (a.x ≠ 0) && !allZero a.v
 def RVal.copyB (mw : List α) (a : RVal α) : BArg → Except Err (RVal α)
   | .none => .ok a
   | .bad => .error .valueError
-  | .mol => if a.basis = .mol then .ok a else do
-      let v' ← rebaseV (mwFlat mw a.ph) a.v a.ridx .mol
-      pure { a with v := v', basis := .mol }
-  | .wt => if a.basis = .wt then .ok a else do
-      let v' ← rebaseV (mwFlat mw a.ph) a.v a.ridx .wt
-      pure { a with v := v', basis := .wt }
+  | .mol => if a.basis = .mol then .ok a else
+      match rebaseV (mwFlat mw a.ph) a.v a.ridx .mol with
+      | .error e => .error e
+      | .ok v' => .ok { a with v := v', basis := .mol }
+  | .wt => if a.basis = .wt then .ok a else
+      match rebaseV (mwFlat mw a.ph) a.v a.ridx .wt with
+      | .error e => .error e
+      | .ok v' => .ok { a with v := v', basis := .wt }
 
 /-- `_math_compatible_reaction`: bring `b` to `a`'s basis, then check phases and reactant -/
-def RVal.compat (mw : List α) (a b : RVal α) : Except Err (RVal α) := do
-  let b' ← b.copyB mw (BArg.ofBasis a.basis)
-  if a.ph ≠ b'.ph then throw .valueError
-  if a.ridx ≠ b'.ridx then throw .valueError
-  pure b'
+def RVal.compat (mw : List α) (a b : RVal α) : Except Err (RVal α) :=
+  match b.copyB mw (BArg.ofBasis a.basis) with
+  | .error e => .error e
+  | .ok b' =>
+    if a.ph ≠ b'.ph then .error .valueError
+    else if a.ridx ≠ b'.ridx then .error .valueError
+    else .ok b'
 
 /-- `a + b` (`sub = false`) and `a - b` (`sub = true`) at value level.  `b = none` stands for
 `0` / `None`. -/
@@ -140,10 +144,13 @@ def RVal.addSub (mw : List α) (sub : Bool) (a : RVal α) (b : Option (RVal α))
   match b with
   | none => .ok a
   | some b =>
-    if !b.hasReaction then .ok a else do
-      let b' ← a.compat mw b
-      let v ← combineV sub a.v a.x b'.v b'.x b'.ridx
-      pure { a with v := v, x := if sub then a.x - b'.x else a.x + b'.x }
+    if !b.hasReaction then .ok a else
+      match a.compat mw b with
+      | .error e => .error e
+      | .ok b' =>
+        match combineV sub a.v a.x b'.v b'.x b'.ridx with
+        | .error e => .error e
+        | .ok v => .ok { a with v := v, x := if sub then a.x - b'.x else a.x + b'.x }
 
 /-- `a * k` -/
 def RVal.smul (a : RVal α) (k : α) : RVal α := { a with x := a.x * k }
@@ -154,23 +161,30 @@ def RVal.sdiv (a : RVal α) (k : α) : Except Err (RVal α) :=
 
 def RVal.neg (a : RVal α) : RVal α := { a with x := a.x * (-1) }
 
+/-- the reactant of the reversed reaction: the only product, or the given chemical -/
+def RVal.newReactant (nchem : Nat) (a : RVal α) : Option Nat → Except Err Nat
+  | none => match positives a.v with
+    | [i] => .ok i
+    | _ => .error .valueError
+  | some c => .ok (flatIdx a.v nchem a.ph c)
+
 /-- `backwards(reactant, X)` (repaired): the new reactant is the only product (or the given
 chemical), the copy is rescaled on it -/
-def RVal.backwards (nchem : Nat) (a : RVal α) (reactant : Option Nat) (x : Option α) : Except Err (RVal α) := do
-  let ridx ← match reactant with
-    | none => match positives a.v with
-      | [i] => pure i
-      | _ => throw Err.valueError
-    | some c => pure (flatIdx a.v nchem a.ph c)
-  let v' ← rescale a.v ridx
-  pure { a with v := v', ridx := ridx, x := x.getD a.x }
+def RVal.backwards (nchem : Nat) (a : RVal α) (reactant : Option Nat) (x : Option α) : Except Err (RVal α) :=
+  match a.newReactant nchem reactant with
+  | .error e => .error e
+  | .ok ridx =>
+    match rescale a.v ridx with
+    | .error e => .error e
+    | .ok v' => .ok { a with v := v', ridx := ridx, x := x.getD a.x }
 
 /-- fold of `rxn = first.copy(); for i in rest: rxn += i` in `ParallelReaction.reduce` -/
 def reduceGroup (mw : List α) : RVal α → List (RVal α) → Except Err (RVal α)
   | acc, [] => .ok acc
-  | acc, b :: rest => do
-    let acc' ← acc.addSub mw false (some b)
-    reduceGroup mw acc' rest
+  | acc, b :: rest =>
+    match acc.addSub mw false (some b) with
+    | .error e => .error e
+    | .ok acc' => reduceGroup mw acc' rest
 
 /-- a reaction applied to the molar flows of a stream: by mass if the basis is `wt` -/
 def applyStream (mwf : List α) (basis : Basis) (f : List α → List α) (n : List α) : List α :=
@@ -312,13 +326,16 @@ def allEq {β : Type} [DecidableEq β] : List β → Bool
 /-- one reduced reaction per reactant key, in the given key order -/
 def reduceVals (mw : List α) (ms : List (RVal α)) : List Nat → Except Err (List (RVal α))
   | [] => .ok []
-  | k :: ks => do
+  | k :: ks =>
     match ms.filter (fun m => decide (m.ridx = k)) with
-    | [] => throw Err.badParam
+    | [] => .error .badParam
     | m :: rest =>
-      let r ← reduceGroup mw m rest
-      let rs ← reduceVals mw ms ks
-      pure (r :: rs)
+      match reduceGroup mw m rest with
+      | .error e => .error e
+      | .ok r =>
+        match reduceVals mw ms ks with
+        | .error e => .error e
+        | .ok rs => .ok (r :: rs)
 
 /-- `a += b` (`sub = false`), `a -= b` (`sub = true`): nothing happens if there is nothing to combine;
 otherwise a new array is bound to `a` and `a.X` is written through the setter -/
